@@ -446,3 +446,72 @@ fn gen_identity() {
     assert!(data == data0 && error == error0);
 }
 
+
+
+// ---------------------------------------------------------------------------
+// decode() as glue around decode_gen: with decode_gen replaced by a recording
+// stub, the per-block slices, stride and err_len handed down are checked for
+// every symbol size (the real decode_gen: cap_gen_*, ok_*).
+
+static mut GLUE_CALLS: usize = 0;
+static mut GLUE_OK: bool = true;
+static mut GLUE_NDATA: usize = 0;
+static mut GLUE_NERR: usize = 0;
+static mut GLUE_STRIDE: usize = 0;
+static mut GLUE_K: usize = 0;
+
+fn stub_decode_gen<F, G>(data: &mut [u8], error: &mut [u8], stride: usize, err_len: usize, _f: F, _g: G) -> Result<(), ErrorDecodingError>
+where
+    F: Fn(&[GF]) -> Result<Vec<GF>, ErrorDecodingError>,
+    G: Fn(&mut [GF], &[GF], &mut [GF]),
+{
+    unsafe {
+        let b = GLUE_CALLS;
+        // block b must be handed data[b..] and error[b..] of the full vectors, with the marker bytes in front
+        if data.len() != GLUE_NDATA - b || error.len() != GLUE_NERR - b || stride != GLUE_STRIDE || err_len != GLUE_K {
+            GLUE_OK = false;
+        }
+        if data[0] != (b as u8) + 1 || error[0] != (b as u8) + 101 {
+            GLUE_OK = false;
+        }
+        GLUE_CALLS += 1;
+    }
+    Ok(())
+}
+
+#[kani::proof]
+#[kani::unwind(12)]
+#[kani::stub(decode_gen, stub_decode_gen)]
+fn dec_glue() {
+    use crate::symbol_size::verif_sym::VARIANTS;
+    use crate::verif_ref::tables::TABLE;
+    let i: usize = kani::any();
+    kani::assume(i < 48);
+    let t = TABLE[i];
+    let size = VARIANTS[i];
+    let mut cw = [0u8; 2178];
+    // markers: first data codeword of block b is b+1, first error codeword of block b is b+101
+    let mut b = 0;
+    while b < 10 {
+        if b < t.blocks {
+            cw[b] = (b as u8) + 1;
+            cw[t.data + b] = (b as u8) + 101;
+        }
+        b += 1;
+    }
+    unsafe {
+        GLUE_CALLS = 0;
+        GLUE_OK = true;
+        GLUE_NDATA = t.data;
+        GLUE_NERR = t.ecc;
+        GLUE_STRIDE = t.blocks;
+        GLUE_K = t.ecc / t.blocks;
+    }
+    let r = decode(&mut cw[..t.data + t.ecc], size);
+    assert!(r.is_ok());
+    unsafe {
+        assert!(GLUE_CALLS == t.blocks);
+        assert!(GLUE_OK);
+    }
+    kani::cover!(t.blocks == 10);
+}
